@@ -382,7 +382,7 @@ def j1(tier, seed, cov):
     states = trans = 0
     cov["configs"] = {}
     for cfg, sim in cfgs:
-        r = vlib.tlc(SPECDIR, "Bus", cfg, workers=min(8, vlib.NCPU), timeout=3000, heap=HEAP, deadlock=True,
+        r = vlib.tlc(SPECDIR, "Bus", cfg, workers=vlib.NCPU if tier == "thorough" else min(8, vlib.NCPU), timeout=5400, heap=HEAP, deadlock=True,
                      simulate=sim)
         vlib.tlc_require_ok(r, "J1 Bus " + cfg)
         if sim:
@@ -408,6 +408,12 @@ CURATED = [
      ("read", 1), ("join", 2)),
     # close the bus with undelivered events everywhere, then use it
     (("sub", 0), ("sub", 0), ("pub", 1), ("sub", 1), ("aclose", 0), ("pub", 2), ("sub", 0), ("join", 0)),
+    # bus_test.go TestBus shape: two subscribers, close one, publish again, close the bus, publish on the closed bus
+    (("pub", 1), ("sub", 0), ("sub", 0), ("pub", 2), ("read", 1), ("read", 2), ("close", 2), ("pub", 3),
+     ("read", 1), ("close", 0), ("pub", 4)),
+    # the bus is held with an event in flight while the original is cloned twice, read and closed
+    (("sub", 0), ("pub", 1), ("hpub", 2), ("sub", 1), ("read", 1), ("sub", 1), ("aclose", 2), ("release", 0),
+     ("read", 1), ("read", 3), ("read", 3), ("join", 2)),
 ]
 
 
